@@ -23,7 +23,7 @@ def main():
     t0 = time.time()
     res = symctx.explore(
         ob.fn,
-        params=dict(params, tier=tier),
+        params=dict(params, tier=tier, prop=getattr(mod, "PROPERTY", modname[-3:].upper())),
         open_findings=open_findings,
         budget_s=budget,
         per_path_s=ob.per_path(tier),
